@@ -34,6 +34,13 @@ pub const QS: Shape = Shape {
     limit_mask: 3, limit_max: 4, dl_mask: 3, b_mask: 1,
 };
 
+/// two other tasks (one job each) with distinct deadlines and segment lengths: the blocking
+/// term must take the largest segment among *all* lower-priority tasks
+pub const QE2: Shape = Shape {
+    n_tua: 1, n_others: 2, n_oth: 1, inc_mask: 3, cost_mask: 3,
+    limit_mask: 3, limit_max: 4, dl_mask: 7, b_mask: 0,
+};
+
 pub fn fp_body(s: &mut crate::Src, kind: Kind, sh: &Shape) {
     let sc = any_scenario(s, sh);
     let got = call_fp(kind, &sc);
@@ -88,12 +95,14 @@ harness!(c06_edf_lp_t, 6, |s| { edf_body(s, Kind::Limited, &TE); });
 harness!(c06_edf_fl_t, 6, |s| { edf_body(s, Kind::Floating, &TE); });
 harness!(c06_fifo_t, 8, |s| { fifo_body(s, &T); });
 harness!(c06_edf_np_never_t, 5, |s| { edf_body(s, Kind::NonPreemptive, &QEN); });
+harness!(c06_edf_fl_two_others_t, 6, |s| { edf_body(s, Kind::Floating, &QE2); });
+harness!(c06_edf_np_two_others_t, 6, |s| { edf_body(s, Kind::NonPreemptive, &QE2); });
 
 pub fn register(t: &mut Table) {
     reg!(t;
         c06_fp_p_q, c06_fp_np_q, c06_fp_lp_q, c06_fp_fl_q,
         c06_edf_p_q, c06_edf_np_q, c06_edf_lp_q, c06_edf_fl_q, c06_fifo_q, c06_fifo_single_q, c06_fp_np_single_q,
         c06_fp_p_t, c06_fp_np_t, c06_fp_lp_t, c06_fp_fl_t,
-        c06_edf_p_t, c06_edf_np_t, c06_edf_lp_t, c06_edf_fl_t, c06_fifo_t, c06_edf_np_never_t,
+        c06_edf_p_t, c06_edf_np_t, c06_edf_lp_t, c06_edf_fl_t, c06_fifo_t, c06_edf_np_never_t, c06_edf_fl_two_others_t, c06_edf_np_two_others_t,
     );
 }
